@@ -33,6 +33,35 @@ def run(ctx):
             warnings.simplefilter("ignore")
             vals_arg, vals_how = dom.gas_values_form(vals, k + 1)    # what the keys say decides, not the order they were inserted in
             tb = build_pvt_gas(vals_arg, g["dry"], pmax)
+        # mappings that answer gas_values[key] through their own lookup (a record that falls back to field-wide defaults for entries a
+        # well does not list; a record that resolves aliased names): what gas_values[key] returns is the gas the table is built for
+        if k < (1 if ctx.quick else 4):
+            class FieldDefaults(dict):
+                def __missing__(self, key):
+                    return field_wide[key]
+
+            class Aliased(dict):
+                def __getitem__(self, key):
+                    return dict.__getitem__(self, {"N2": "Nitrogen", "H2S": "Hydrogen sulfide", "CO2": "Carbon dioxide"}.get(key, key))
+            field_wide = {"N2": vals["N2"], "H2S": vals["H2S"], "CO2": vals["CO2"]}
+            special = [(FieldDefaults({q: v for q, v in vals.items() if q not in ("N2", "CO2")}), "dict subclass whose __missing__ supplies field-wide N2 and CO2"),
+                       (Aliased({{"N2": "Nitrogen", "H2S": "Hydrogen sulfide", "CO2": "Carbon dioxide"}.get(q, q): v for q, v in vals.items()}), "dict subclass whose __getitem__ resolves N2 / H2S / CO2 to spelled-out names")]
+            for m_arg, m_how in special:
+                ev += 1
+                try:
+                    with warnings.catch_warnings():
+                        warnings.simplefilter("ignore")
+                        tb_m = build_pvt_gas(m_arg, g["dry"], pmax)
+                except Exception as e:  # noqa: BLE001
+                    bad("build_pvt_gas fails for a mapping that answers gas_values[key] through its own lookup", dict(gas_values=vals, gas_values_given_as=m_how, dryness=g["dry"]), repr(e)[:200])
+                    continue
+                nrow = len(tb_m["pressure"])
+                for col in ("pseudopressure", "z-factor", "viscosity"):
+                    a_, b_ = np.asarray(tb_m[col], float), np.asarray(tb[col], float)[:nrow]
+                    if not np.allclose(a_, b_, rtol=1e-12, atol=0):
+                        bad("the table is not built for the gas that gas_values[key] describes (a mapping that answers through its own lookup is read around it)",
+                            dict(gas_values=vals, gas_values_given_as=m_how, dryness=g["dry"], column=col), dict(max_rel_diff=float(np.abs(a_ / np.where(b_ == 0, 1, b_) - 1).max()), row=int(np.argmax(np.abs(a_ - b_)))))
+                        break
         P = np.asarray(tb["pressure"], float)
         mu = np.asarray(tb["viscosity"], float)
         z = np.asarray(tb["z-factor"], float)
